@@ -351,6 +351,9 @@ def _patch_engine():
       return mat_subscript(self, obj, idx, lineno)
     if type(obj) is E.SymSeq and isinstance(idx, tuple) and getattr(self, 'matrix_mode', False):
       return seq_tuple_subscript(self, obj, idx)
+    if type(obj) is E.SymSeq and idx is None and getattr(self, 'matrix_mode', False):
+      g = obj.get
+      return SymMat(1, obj.length, lambda i, j: g(j), f'{obj.name}[None]')          # v[np.newaxis]: a 1 x n matrix
     return o_sub(self, obj, idx, lineno)
 
   def store_subscript(self, obj, idx, v, node):
